@@ -1561,10 +1561,14 @@ func (tx *Transaction) AuditLog() *auditlog.Log {
 		case types.AuditLogPartRequestBody:
 			reader, err := tx.requestBodyBuffer.Reader()
 			if err == nil {
-				content, err := io.ReadAll(reader)
-				if err == nil {
+				var content []byte
+				if content, err = io.ReadAll(reader); err == nil {
 					al.Transaction_.Request_.Body_ = string(content)
 				}
+			}
+			if err != nil {
+				// the record is written without part C: say so instead of dropping the failure
+				tx.debugLogger.Error().Err(err).Msg("Failed to read the request body for the audit log")
 			}
 
 			// Note: Part I is a replacement for Part C that logs a fake
